@@ -1998,15 +1998,20 @@ pub fn current_timestamp() -> impl Function {
 }
 
 pub fn extract_year() -> impl Function {
+    // The years of the dates the types can hold (they start before year 0)
+    let years = || {
+        DataType::integer_interval(
+            chrono::NaiveDate::MIN.year() as i64,
+            chrono::NaiveDate::MAX.year() as i64,
+        )
+    };
     Polymorphic::from((
-        Pointwise::univariate(data_type::Date::default(), DataType::integer_min(0), |a| {
+        Pointwise::univariate(data_type::Date::default(), years(), |a| {
             (a.year() as i64).into()
         }),
-        Pointwise::univariate(
-            data_type::DateTime::default(),
-            DataType::integer_min(0),
-            |a| (a.year() as i64).into(),
-        ),
+        Pointwise::univariate(data_type::DateTime::default(), years(), |a| {
+            (a.year() as i64).into()
+        }),
     ))
 }
 
@@ -2080,12 +2085,12 @@ pub fn extract_week() -> impl Function {
     Polymorphic::from((
         Pointwise::univariate(
             data_type::Date::default(),
-            DataType::integer_interval(1, 52),
+            DataType::integer_interval(1, 53),
             |a| (a.iso_week().week() as i64).into(),
         ),
         Pointwise::univariate(
             data_type::DateTime::default(),
-            DataType::integer_interval(1, 52),
+            DataType::integer_interval(1, 53),
             |a| (a.iso_week().week() as i64).into(),
         ),
     ))
@@ -2140,12 +2145,12 @@ pub fn extract_microsecond() -> impl Function {
     Polymorphic::from((
         Pointwise::univariate(
             data_type::Time::default(),
-            DataType::integer_interval(0, 59999000),
+            DataType::integer_interval(0, 60999999),
             |a| (a.second() as i64 * 1_000_000 + a.nanosecond() as i64 / 1_000).into(),
         ),
         Pointwise::univariate(
             data_type::DateTime::default(),
-            DataType::integer_interval(0, 59999000),
+            DataType::integer_interval(0, 60999999),
             |a| (a.second() as i64 * 1_000_000 + a.nanosecond() as i64 / 1_000).into(),
         ),
     ))
@@ -2155,12 +2160,12 @@ pub fn extract_millisecond() -> impl Function {
     Polymorphic::from((
         Pointwise::univariate(
             data_type::Time::default(),
-            DataType::float_interval(0., 59900.000),
+            DataType::float_interval(0., 61000.),
             |a| (a.second() as f64 * 1000. + a.nanosecond() as f64 / 1_000_000.).into(),
         ),
         Pointwise::univariate(
             data_type::DateTime::default(),
-            DataType::float_interval(0., 59900.000),
+            DataType::float_interval(0., 61000.),
             |a| (a.second() as f64 * 1000. + a.nanosecond() as f64 / 1_000_000.).into(),
         ),
     ))
